@@ -10,7 +10,7 @@ S: the property itself evaluated on the implementation's answers with an indepen
 import json, os, struct, subprocess, sys
 from vplib import *
 
-MODS = ["ma", "mb", "mc"]
+MODS = ["ma", "mab", "mb"]      # `ma` is a STRING prefix of `mab` (but not an ancestor): module paths must be compared segment-wise
 FNS = ["fa", "fb", "fc", "fd"]
 LETS = ["va", "vb", "fa"]          # `fa` on purpose: a module `let` collides with functions of that name
 LOCAL_BASE = 100
